@@ -272,20 +272,34 @@ class _FilePersistence(_ConcretePersistence):
                 # create the temporary file next to the data file, so that it can
                 # replace the data file atomically, also if ReBench is killed
                 target_dir = os.path.dirname(os.path.abspath(self._data_filename))
-                with NamedTemporaryFile("w", delete=False, dir=target_dir) as target:
-                    # pylint: disable-next=unspecified-encoding
-                    with open(self._data_filename, "r", errors="replace") as data_file:
-                        self._process_lines(data_file, current_runs, target)
-                # the temporary file needs to be closed, i.e., completely written,
-                # before it replaces the data file
-                os.replace(target.name, self._data_filename)
+                target_name = None
+                try:
+                    with NamedTemporaryFile("w", delete=False, dir=target_dir) as target:
+                        target_name = target.name
+                        # pylint: disable-next=unspecified-encoding
+                        with open(self._data_filename, "r", errors="replace") as data_file:
+                            self._process_lines(data_file, current_runs, target)
+                    # the temporary file needs to be closed, i.e., completely written,
+                    # before it replaces the data file
+                    os.replace(target.name, self._data_filename)
+                except BaseException:
+                    # do not leave the incomplete copy behind
+                    if target_name is not None and os.path.exists(target_name):
+                        os.unlink(target_name)
+                    raise
             else:
                 # pylint: disable-next=unspecified-encoding
                 with open(self._data_filename, "r", errors="replace") as data_file:
                     self._process_lines(data_file, current_runs, None)
-        except IOError:
+        except FileNotFoundError:
             self.ui.debug_error_info("No data loaded, since %s does not exist.\n"
                                       % escape_braces(str(self._data_filename)))
+        except OSError as err:
+            # anything else (no space left, no permission, ...) must not be mistaken for
+            # a data file that does not exist yet: the runs would be executed again,
+            # and with --rerun their old data would stay in the file
+            raise UIError("Failed to load the data file %s.\n{ind}%s\n"
+                          % (escape_braces(str(self._data_filename)), escape_braces(str(err))), err)
         return self._start_time
 
     def _process_lines(self, data_file, runs, filtered_data_file):
